@@ -43,7 +43,7 @@ template <class Idx, class InvIdx, class TT>
 void permute_case(Ctx& c) {
     using T = typename TensVals<TT>::scalar;
     constexpr size_t SZ = TensVals<TT>::size;
-    TT A; fill_unique(A.data(), SZ, 100);
+    VP_OPERAND((TT), A); fill_unique(A.data(), SZ, 100);
     std::vector<size_t> d = TensVals<TT>::dims(), p = IdxVals<Idx>::get(), od; std::vector<T> want;
     ref_permute(A.data(), d, p, want, od);
     { scrub_stack(); auto out = permute<Idx>(A); launder(out.data());
@@ -65,7 +65,7 @@ template <class Idx, class TT>
 void permutation_case(Ctx& c) {
     using T = typename TensVals<TT>::scalar;
     constexpr size_t SZ = TensVals<TT>::size;
-    TT A; fill_unique(A.data(), SZ, 100);
+    VP_OPERAND((TT), A); fill_unique(A.data(), SZ, 100);
     std::vector<size_t> d = TensVals<TT>::dims(), p = IdxVals<Idx>::get(), q = inverse(p), od_p, od_q; std::vector<T> want_p, want_q;
     ref_permute(A.data(), d, p, want_p, od_p); ref_permute(A.data(), d, q, want_q, od_q);
     for (int form = 0; form < 2; ++form) {
@@ -103,7 +103,7 @@ template <class T, size_t M, size_t N>
 void ctrans_part(Ctx&, const Tensor<T, M, N>&, const std::vector<T>&, If<false>) {}
 template <class T, size_t M, size_t N>
 void ctrans_real(Ctx& c) {   // sentinel: today rejected by the compiler in every configuration
-    Tensor<T, M, N> A; fill_unique(A.data(), M * N, 100); std::vector<T> want(M * N);
+    VP_OPERAND((Tensor<T, M, N>), A); fill_unique(A.data(), M * N, 100); std::vector<T> want(M * N);
     for (size_t i = 0; i < M; ++i) for (size_t j = 0; j < N; ++j) want[j * M + i] = A.data()[i * N + j];
     Framed<Tensor<T, N, M>> B; paint(B->data(), M * N); VP_LIB(*B = ctrans(A)); cmp_moved(c, B->data(), want, "B=ctrans(A) real", 100); B.verify(c, "ctrans real");
     c.nontrivial = true;
@@ -111,7 +111,7 @@ void ctrans_real(Ctx& c) {   // sentinel: today rejected by the compiler in ever
 
 template <class T, size_t M, size_t N>
 void transpose_case(Ctx& c) {
-    Tensor<T, M, N> A; fill_unique(A.data(), M * N, 100);
+    VP_OPERAND((Tensor<T, M, N>), A); fill_unique(A.data(), M * N, 100);
     std::vector<T> want(M * N), wantc(M * N);
     for (size_t i = 0; i < M; ++i) for (size_t j = 0; j < N; ++j) { want[j * M + i] = A.data()[i * N + j]; wantc[j * M + i] = conj_of(A.data()[i * N + j]); }
     { Framed<Tensor<T, N, M>> B; paint(B->data(), M * N); VP_LIB(*B = transpose(A)); cmp_moved(c, B->data(), want, "transpose(A)", 100); B.verify(c, "transpose(A)"); }
@@ -128,7 +128,7 @@ void transpose_case(Ctx& c) {
 // batched transpose over the trailing two (square) axes
 template <class T, size_t B0, size_t J>
 void transpose_batched(Ctx& c) {
-    Tensor<T, B0, J, J> A; fill_unique(A.data(), B0 * J * J, 100);
+    VP_OPERAND((Tensor<T, B0, J, J>), A); fill_unique(A.data(), B0 * J * J, 100);
     std::vector<T> want(B0 * J * J);
     for (size_t b = 0; b < B0; ++b) for (size_t i = 0; i < J; ++i) for (size_t j = 0; j < J; ++j) want[b * J * J + j * J + i] = A.data()[b * J * J + i * J + j];
     scrub_stack(); Tensor<T, B0, J, J> out = transpose(A); launder(out.data()); cmp_moved(c, out.data(), want, "transpose(batched)", 100);
